@@ -1,3 +1,4 @@
+import I2N.Lemmas.TravExcl
 import I2N.Lemmas.TravLoc
 /-!
 Progress-related reachable-state invariants of the traversal model (properties C02 and C08):
